@@ -6,24 +6,37 @@
   against BOTH Go packages: a drift of one copy shows as a disagreement of that package with the
   shared model. What is PROVED about the flag:
 
-    * `step_flag_independent` — every scan function except the top-level one (`reader_scanStatement`
-      / `reader_scan_trigDoc`) behaves identically in both packages, for every argument;
-    * `ttl_default_graph` (Props/C06Ttl.lean) — Turtle statements have no graph name, and in the
-      model a graph name is only ever set by `GRAPH`, a label before `{`, or `[] {` (TriG-only
-      scan functions), so everything decoded outside a graph block is in the default graph.
+    * `step_flag_independent`, `ttl_sub_trig_partial` — every scan function except the top-level one
+      (`reader_scanStatement` / `reader_scan_trigDoc`) behaves identically in both packages;
+    * `ttl_sub_trig_sim_partial` — THE SIMULATION (Proofs/TtlDocSim.lean), for ALL inputs, grammatical
+      or not: a document the Turtle run accepts with statements `ts` is accepted by the TriG run with
+      the same `ts`, all in the default graph.  The two top-level functions differ in *when* they read
+      the subject token (Turtle pushes `Triples_End`, backtracks and re-scans the token through
+      `Triples_Subject_*`; TriG produces it at once and decides in `E1` after looking for `{`; after
+      `[` Turtle runs `Subject_AnonOrBlankNode`, TriG its own closures and `triples2`); the proof is a
+      stuttering simulation (one Turtle iteration of the loop in `Next` ↦ one or two TriG
+      iterations) up to the white space `scan` skips and the context of `Triples_End` frames.
+      Hypothesis `KwSafe` (beyond `NoPanic`/`Consumes`/`LangNonEmpty`): where the top-level
+      functions branch apart the Turtle side finds no subject — `{` is no PN_CHARS_BASE rune, and
+      `GRAPH` + white space is not the beginning of a prefixed name.  `real_kwSafe` proves it for
+      the real producers and every white-space predicate that contains no PN_CHARS rune, `:` or `.`
+      (`SpaceOK`; Props/C07Doc.lean instantiates it: `ttl_sub_trig_real_partial`).
+    * `ttl_sub_trig_refuted` — the statement WITHOUT that hypothesis (`ttl_sub_trig`, as it stood) is
+      FALSE for the configuration the driver runs: Go's `unicode.IsSpace` contains U+1680 OGHAM
+      SPACE MARK, a PN_CHARS_BASE rune, so the prefix label `GRAPH\u1680x` is a name for the Turtle
+      decoder and the keyword `GRAPH` + white space for the TriG decoder (finding C07-graph-ogham,
+      replayed on the Go code: Turtle yields the triple, TriG fails with "unknown prefix: x").
+    * `ttl_default_graph` (Props/C06Ttl.lean) — Turtle statements have no graph name.
 
-  What is NOT proved (stated as `def`s, evidence = correspondence + the Go-vs-Go oracle on all W3C
+  What is NOT proved (stated as a `def`, evidence = correspondence + the Go-vs-Go oracle on all W3C
   files, generated and mutated documents):
 
-    * `ttl_sub_trig` — the full simulation "Turtle run accepts with `ts` ⇒ TriG run accepts with the
-      same `ts`". The two top-level functions differ in *when* they read the subject token (Turtle
-      backtracks and re-scans through `Triples_Subject_*`, TriG produces it at once and decides in
-      `E1` after looking for `{`), so the proof is a stuttering simulation up to white-space
-      normalisation of the buffer; it is not done.
     * `nt_sub_ttl` — needs token-level inclusion lemmas between `Model.NQuads` scanners and the
-      Turtle producers for whole statements; only the token-level part exists (Props/C07Tokens.lean).
+      Turtle producers for whole statements; only the token-level part exists (Props/C07Tokens.lean)
+      and the encoder-image part (Props/C07Doc.lean).
 -/
 import RdfModel.Props.C06Ttl
+import RdfModel.Proofs.TtlDocSim
 import RdfModel.Spec.NQuadsGrammar
 import RdfModel.Gen.NQTables
 namespace RdfModel.C07
@@ -31,35 +44,84 @@ open RdfModel RdfModel.TtlDoc
 
 /-- Outside the top-level scan function the package flag is irrelevant. -/
 theorem step_flag_independent (C : Cfg) (b : Bool) (e : End) (k : Cont) (x : Ectx) (env : Env) (a : Arg)
-    (hk : k ≠ .statement) : stepFn { C with trig := b } e k x env a = stepFn C e k x env a := by
-  cases k <;> first | rfl | exact absurd rfl hk
+    (hk : k ≠ .statement) : stepFn { C with trig := b } e k x env a = stepFn C e k x env a :=
+  stepFn_flag C b e k x env a hk
 
 /-- `ttl_sub_trig_partial`: the same, for a whole `scan` call (white-space skipping included). -/
 theorem ttl_sub_trig_partial (C : Cfg) (b : Bool) (e : End) (f : Frame) (inp : List Nat) (env : Env)
-    (hk : f.k ≠ .statement) : scanFn { C with trig := b } e f inp env = scanFn C e f inp env := by
-  have hs : ∀ bb i, skipWs { C with trig := b } e bb i = skipWs C e bb i := by
-    intro bb i
-    induction i generalizing bb with
-    | nil => cases bb <;> rfl
-    | cons c r ih =>
-      cases bb
-      · simp only [skipWs, isWs, ih]; rfl
-      · simp only [skipWs, ih]
-  unfold scanFn
-  rw [hs]
-  split <;> simp [step_flag_independent C b e f.k f.x env _ hk]
+    (hk : f.k ≠ .statement) : scanFn { C with trig := b } e f inp env = scanFn C e f inp env :=
+  scanFn_flag C b e f inp env hk
 
 /-- Turtle statements as TriG statements in the default graph are the same values (`g = none`). -/
 def sameTriples (ts qs : List Stmt) : Prop := ts = qs ∧ ∀ q ∈ qs, q.g = none
 
-/-- FULL STATEMENT (not proved): a document the Turtle run accepts is accepted by the TriG run with the
-    same triples, all in the default graph. Both runs use the same tables (`tables_agree`,
-    Props/C07Tables.lean) and the same resolver. -/
+/-- FULL STATEMENT as it stood (no hypothesis on the keyword/white-space interplay): a document the
+    Turtle run accepts is accepted by the TriG run with the same triples, all in the default graph.
+    REFUTED below (`ttl_sub_trig_refuted`); proved with the hypothesis `KwSafe`
+    (`ttl_sub_trig_sim_partial`). -/
 def ttl_sub_trig : Prop :=
   ∀ (C : Cfg) (base : Option (List Nat)) (pf : List (List Nat × List Nat)) (inp : List Nat) (ts : List Stmt),
     C.P.NoPanic → C.P.Consumes →
     run { C with trig := false } .eof base pf inp = (ts, .clean) →
     ∃ qs, run { C with trig := true } .eof base pf inp = (qs, .clean) ∧ sameTriples ts qs
+
+/-- THE SIMULATION. For every input (grammatical or not), every base, prefix table, resolver, stream
+    ending and token producers satisfying `NoPanic`, `Consumes`, `LangNonEmpty` and `KwSafe`: what the
+    Turtle run accepts, the TriG run accepts with the same statements, all in the default graph.
+    `_partial` because of `KwSafe` (see the header; false for `unicode.IsSpace`, finding C07-graph-ogham). -/
+theorem ttl_sub_trig_sim_partial (C : Cfg) (e : End) (hP : C.P.NoPanic) (hC : C.P.Consumes) (hL : C.P.LangNonEmpty)
+    (hK : KwSafe C) (base : Option (List Nat)) (pf : List (List Nat × List Nat)) (inp : List Nat) (ts : List Stmt)
+    (h : run { C with trig := false } e base pf inp = (ts, .clean)) :
+    ∃ qs, run { C with trig := true } e base pf inp = (qs, .clean) ∧ sameTriples ts qs := by
+  refine ⟨ts, sim_run hP hC hK base pf inp ts h, rfl, ?_⟩
+  intro q hq
+  have := (C06.doc_emits_wf { C with trig := false } e hP hL base pf inp q (by rw [h]; exact hq)).graph
+  cases hg : q.g with
+  | none => rfl
+  | some g => exact absurd (this g hg).1 (by simp)
+
+/-- `KwSafe` for the real token producers (either package's tables) and the grammar's white space. -/
+theorem kwSafe_real (trig : Bool) (resolve : Option (List Nat) → List Nat → Option (List Nat)) (isSpace : Nat → Bool)
+    (hsp : SpaceOK (if trig then Gen.trig else Gen.turtle) isSpace) : KwSafe (C05.realCfg trig resolve isSpace) := by
+  cases trig
+  · exact real_kwSafe Gen.turtle false resolve isSpace (by decide) hsp
+  · exact real_kwSafe Gen.trig true resolve isSpace (by decide) hsp
+
+/-- non-vacuity of `SpaceOK` / `KwSafe`: the white space of the Turtle grammar (SP, TAB, LF, CR) -/
+example : SpaceOK Gen.turtle (fun c => c = 0x20 || c = 0x09 || c = 0x0a || c = 0x0d) := by
+  intro c hc
+  simp only [Bool.or_eq_true, decide_eq_true_eq] at hc
+  rcases hc with ((rfl | rfl) | rfl) | rfl <;> decide
+
+/-- non-vacuity of the simulation theorem: documents with the kinds of subject on which the two
+    top-level functions differ, accepted by both runs -/
+example :
+    let C := C05.realCfg false (fun _ r => some r) (fun c => c = 0x20 || c = 0x09 || c = 0x0a || c = 0x0d)
+    let doc := asc "<a:s> <a:p> 1 . [] <a:p> () . [ <a:p> 2 ] <a:q> 3 ."
+    (run { C with trig := false } .eof none [] doc).2 = .clean ∧
+    run { C with trig := true } .eof none [] doc = run { C with trig := false } .eof none [] doc := by
+  decide
+
+/-- FINDING C07-graph-ogham (known, not repaired): with Go's `unicode.IsSpace` (which contains the
+    PN_CHARS_BASE rune U+1680) as white-space predicate — the configuration the driver runs — a
+    Turtle document whose prefix label is `GRAPH` U+1680 `x` is decoded by the Turtle run and
+    rejected by the TriG run, which reads the keyword `GRAPH`. Replayed on the Go code. -/
+theorem finding_graph_ogham :
+    let C := C05.realCfg false (fun _ r => some r) (inRanges Gen.unicodeSpace)
+    let doc := asc "@prefix GRAPH\u1680x: <a:> . GRAPH\u1680x:a <a:b> <a:c> ."
+    run { C with trig := false } .eof none [] doc =
+      ([⟨some (.iri (asc "a:a")), some (.iri (asc "a:b")), .iri (asc "a:c"), none⟩], .clean) ∧
+    run { C with trig := true } .eof none [] doc = ([], .error .pfx) := by
+  decide
+
+/-- Hence the unconditional statement is false. -/
+theorem ttl_sub_trig_refuted : ¬ ttl_sub_trig := by
+  intro h
+  obtain ⟨h1, h2, _⟩ := C05.real_producers_ok Gen.turtle C05.gen_tables_nul.1
+  obtain ⟨hrun, hbad⟩ := finding_graph_ogham
+  obtain ⟨qs, hq, _⟩ := h (C05.realCfg false (fun _ r => some r) (inRanges Gen.unicodeSpace)) none [] _ _ h1 h2 hrun
+  rw [hbad] at hq
+  cases hq
 
 /-- label-carrying blank nodes of the N-Triples model as blank nodes of the Turtle model -/
 def ntTerm : Term (List Nat) → T := Term.map BN.lbl
